@@ -509,6 +509,9 @@ def run(ctx):
     D.loops_visit_all(ctx, "R-C03.15", only=("batch::WriteBatch::commit", "journal::writer::Writer::write_batch", "db::Database::recover", "recovery::recover_sealed_memtables", "tx::write_tx::BaseTransaction::commit"))
 
     # ---- borrowed obligations (mechanisms owned by other properties that this property's verdict also rests on)
+    # a recovered batch is whole only if the replay guard decides per keyspace (an item is skipped only when ITS keyspace's
+    # tables hold it): a guard answering for the wrong keyspace drops one keyspace's half of a batch
+    ctx.borrow("C04", ["R-C04.5"], "R-C03.18", only_instances=["replay-guard-skips-exactly"])
     # a batch is applied under the journal lock: a rotation cannot seal a keyspace's memtable between two of its items
     ctx.borrow("C14", ["R-C14.1", "R-C14.2"], "R-C03.17")
     # a batch whose keyspaces are flushed at different times is atomic across a crash only if its journal is kept until ALL of them have persisted it
